@@ -5,12 +5,22 @@ RULE = ("part 1: the complete orientation tables (oppositeRowOrientation 10, cel
         "pin-offset flip flags 8), exhaustive; part 2: circuits of the C01 domain with polarities; non-trivial = at least "
         "one movable cell with a polarity and Circuit::legalize returned (see stats)")
 PARTIAL = [
-    "legalize_orient (every polarised movable cell has exactly cellOrientationInRow(pol, row under its bottom edge), never "
-    "INVALID, after Circuit::legalize; ANY cells keep their orientation): NOT proved in Lean in this round - supported only by "
-    "the end-to-end direct oracle of harness/h_C04.cpp on generated circuits (bounded by the generator)",
-    "detailed_orient (the same clause after Circuit::placeDetailed and at every PlacementStep::Detailed callback state): NOT "
-    "proved in Lean in this round - supported only by the end-to-end direct oracle (orientation checked at every callback and "
-    "after return); runs in which the real code throws or aborts (findings of C01/C02/C07) are counted, not checked further",
+    "legalize_orient: PROVED in Lean for all inputs of the C01 domain over the executable legalization model "
+    "(Model/Legalize.lean, the definitions drv_C01 runs; Tetris variant tetrisPerSegmentOrientation = true = tree with "
+    "fix c04-tetris-row-orientation). What remains test-level is only the tie model <-> C++ (C01 correspondence stream, which "
+    "carries orientations) and, for a row whose orientation is the marker UNKNOWN (outside the property's quantifier), the "
+    "theorem states what getOrientation does (a SAME cell is left as it was) instead of equality with the table",
+    "detailed_orient: PROVED in Lean over the detailed-placement model (Model/DetPlace.lean) for every history of "
+    "swap/insert/shift/reorder moves from any state satisfying the decidable invariant Inv with all optimised cells placed, "
+    "at every prefix state and at the end; ANY cells and ignored cells proved to keep their orientation. NOT proved for all "
+    "inputs: that the state built by fromIspdCircuit satisfies Inv (C02's inv_init_full_statement; the constructor ends with "
+    "check() and drv_C02 evaluates the decidable Inv on every generated instance), and that the segment a cell is linked in "
+    "contains its whole x-range for inner cells of a row (C02's inv_legal_full_statement; y == row y IS proved). Shift moves are "
+    "the model's checked shift (the code trusts NetworkSimplex; each logged shift is re-checked by the C02/C05 replay). Runs in "
+    "which the real code throws or aborts (findings of C01/C02/C07) are counted by the oracle, not checked further",
+    "the tie of both models to the real code is differential (C01/C02 streams) plus this property's own end-to-end direct "
+    "oracle on Circuit::legalize / Circuit::placeDetailed (orientation checked after legalize, at every Detailed callback and "
+    "after return), bounded by the generator",
     "proved for all inputs: the table-level theorems of Properties/C04.lean over the definitions regenerated from "
     "parameters.cpp / coloquinte.cpp on every run (totality, never UNKNOWN for a declared polarity, ANY -> keep marker, "
     "abort() unreachable, SAME/OPPOSITE never INVALID, NW/SE partition of the rows, involution / mirror facts)",
@@ -18,20 +28,28 @@ PARTIAL = [
 ASSUMPTIONS = [
     "CellOrientation / CellRowPolarity values are the enumerators 0..9 / 0..4 (cellOrientationInRow aborts outside; proved "
     "unreachable for enumerator values and exercised exhaustively on them)",
-    "the row of a cell is the free row segment (row minus fixed obstructions, vc::freeSegments) with minY == cell y that "
-    "contains [x, x + placed width); a polarised cell sitting in no such segment is an illegal placement (C01/C02) and is "
-    "skipped and counted by the orientation oracle",
-    "the legalizer / detailed-placement clauses are not modelled in Lean here; their evidence is differential testing of the "
-    "real code against the property statement on the generated distribution (see distribution in the evidence file)",
+    "the row of a cell is the free row segment (row minus fixed obstructions, vc::freeSegments / Circuit.computeRows) with "
+    "minY == cell y that contains [x, x + placed width) (Lean: C04.UnderBottom, proved unique); a polarised cell sitting in no "
+    "such segment is an illegal placement (C01/C02) and is skipped and counted by the orientation oracle",
+    "legalize_orient has the hypotheses of C01.legalize_legal (C01.Dom: uniform positive row height, positive widths, heights "
+    "multiples of the row height, polarised cells and rows unturned, rows pairwise disjoint); detailed_orient is relative to "
+    "DetPlace.Inv of the initial state (decidable, evaluated by drv_C02 on every instance) and to the C02 model of the moves",
+    "the Lean models are the ones of C01 (Legalize) and C02 (DetPlace): C++ int as unbounded Int (overflow is C07's), the "
+    "Tetris pass as after fix c04-tetris-row-orientation, isRowAllowed as after fix c04-invalid-rows",
 ]
-LEVEL_TEXT = ("Lean 4 theorems about the orientation tables translated from the C++ source on every run (translator tie: "
+LEVEL_TEXT = ("Lean 4 theorems (a) about the orientation tables translated from the C++ source on every run (translator tie: "
               "clang AST -> Gen/OrientTables.lean, plus an exhaustive differential stream over all 78 table entries through "
-              "the real functions and Circuit::pinXOffset/pinYOffset); the end-to-end clauses (after legalize, at every "
-              "Detailed callback, after placeDetailed) are checked by an independent orientation oracle on the real code for "
-              "random circuits of the C01 domain with all polarities, odd/even row counts and all row-orientation patterns, "
-              "under ASan/UBSan with assertions on")
+              "the real functions and Circuit::pinXOffset/pinYOffset) and (b) about the algorithms: legalize_orient for every "
+              "circuit of the C01 domain over the executable legalization model, detailed_orient for every move history over "
+              "the detailed-placement model (corollary of the C02 invariant), both models being tied to the C++ by the C01/C02 "
+              "correspondence streams; in addition the end-to-end clauses (after legalize, at every Detailed callback, after "
+              "placeDetailed) are checked by an independent orientation oracle on the real code for random circuits of the "
+              "C01 domain with all polarities, odd/even row counts and all row-orientation patterns, under ASan/UBSan with "
+              "assertions on")
 LEVEL_NOTE = ("Trusted: Lean kernel (axioms propext/Classical.choice/Quot.sound only), tools/translate.py + clang AST for the "
-              "generated tables, the harness's independent reading of 'row under the bottom edge'. The legalizer and "
-              "detailed-placement orientation clauses are test-level evidence only (listed in partial_clauses).")
-TECHNIQUE = ("Lean 4 proof (decide over the finite translated tables) + exhaustive table correspondence + end-to-end direct "
-             "oracle on Circuit::legalize / Circuit::placeDetailed")
+              "generated tables, the harness's independent reading of 'row under the bottom edge', and the differential tie of "
+              "the Legalize / DetPlace models to the C++ (C01/C02 streams). The algorithm clauses are proved over those "
+              "models; what is not proved for all inputs is listed in partial_clauses.")
+TECHNIQUE = ("Lean 4 proof (decide over the finite translated tables; invariant proofs over the executable legalization and "
+             "detailed-placement models) + exhaustive table correspondence + end-to-end direct oracle on Circuit::legalize / "
+             "Circuit::placeDetailed")
